@@ -173,7 +173,8 @@ pub fn run_random(out_path: &str, walks: usize, len: usize) {
 			let oid = ty.strip_prefix("custom:").unwrap_or(ty);
 			if rng.chance(2, 3) {
 				let kind = *rng.pick(&kinds);
-				let text = random_text(kind, &mut rng, 6);
+				// one value in eight is the empty string (every kind has it)
+				let text = if rng.chance(1, 8) { String::new() } else { random_text(kind, &mut rng, 6) };
 				ops.push(json!({"op": "push", "e": {"ty": ty, "oid": oid, "kind": kind, "val": hex(text.as_bytes())}}));
 			} else {
 				ops.push(json!({"op": "remove", "e": {"ty": ty, "oid": oid, "kind": "", "val": ""}}));
